@@ -42,12 +42,13 @@ func (pad iso9797M3Padding) Pad(src []byte) []byte {
 	}
 
 	tail = head[srcLen+pad.BlockSize():]
-	clear(head[:pad.BlockSize()])
+	// src may share its backing array with head: move the data before writing the header.
 	copy(head[pad.BlockSize():], src)
+	clear(head[:pad.BlockSize()])
 	if overhead > 0 {
 		clear(tail)
 	}
-	byteorder.BEPutUint64(head[8:], uint64(srcLen*8))
+	pad.putBitLength(head[:pad.BlockSize()], uint64(srcLen)*8)
 	return head
 }
 
@@ -57,14 +58,18 @@ func (pad iso9797M3Padding) Unpad(src []byte) ([]byte, error) {
 	if srcLen < 2*pad.BlockSize() || srcLen%pad.BlockSize() != 0 {
 		return nil, errors.New("padding: invalid src length")
 	}
-	for _, b := range src[:8] {
-		if b != 0 {
-			return nil, errors.New("padding: invalid padding header")
-		}
-	}
-	dstLen := int(byteorder.BEUint64(src[8:pad.BlockSize()])/8)
-	if dstLen < 0 || dstLen > srcLen-pad.BlockSize() {
+	bitLen, ok := pad.bitLength(src[:pad.BlockSize()])
+	if !ok || bitLen%8 != 0 || bitLen/8 > uint64(srcLen-pad.BlockSize()) {
 		return nil, errors.New("padding: invalid padding header")
+	}
+	dstLen := int(bitLen / 8)
+	// the zero padding is the shortest one that completes the last block (a whole block for empty data)
+	dataBlocks := (dstLen + pad.BlockSize() - 1) / pad.BlockSize()
+	if dataBlocks == 0 {
+		dataBlocks = 1
+	}
+	if srcLen != (1+dataBlocks)*pad.BlockSize() {
+		return nil, errors.New("padding: invalid src length")
 	}
 	padded := src[pad.BlockSize()+dstLen:]
 	for _, b := range padded {
@@ -73,4 +78,30 @@ func (pad iso9797M3Padding) Unpad(src []byte) ([]byte, error) {
 		}
 	}
 	return src[pad.BlockSize() : pad.BlockSize()+dstLen], nil
+}
+
+// putBitLength writes bitLen big-endian, right-aligned, into the length block.
+func (pad iso9797M3Padding) putBitLength(block []byte, bitLen uint64) {
+	if len(block) >= 8 {
+		byteorder.BEPutUint64(block[len(block)-8:], bitLen)
+		return
+	}
+	if bitLen>>(8*uint(len(block))) != 0 {
+		panic("padding: data too long for the block size")
+	}
+	for i := len(block) - 1; i >= 0; i-- {
+		block[i] = byte(bitLen)
+		bitLen >>= 8
+	}
+}
+
+// bitLength reads the length block; ok is false if the value does not fit in 64 bits.
+func (pad iso9797M3Padding) bitLength(block []byte) (bitLen uint64, ok bool) {
+	for i, b := range block {
+		if i < len(block)-8 && b != 0 {
+			return 0, false
+		}
+		bitLen = bitLen<<8 | uint64(b)
+	}
+	return bitLen, true
 }
